@@ -32,7 +32,9 @@ def st(s):
 def gen_plan(rng):
     r = rng.random()
     ex = rng.choice([0, 0, 0, 0, 1, 3, 'no_launcher', 'launch_error', 'canceled', 'timeout'])
-    p = {'tmgr_in': rng.random() < 0.1, 'agent_in': rng.random() < 0.1, 'exec': ex, 'on_error': rng.random() < 0.35,
+    # agent_in: an input directive the agent side cannot carry out - its source is missing (True), or its target is
+    # not a local file URL ('badtarget': the stager refuses it with an assertion, not with an I/O error)
+    p = {'tmgr_in': rng.random() < 0.1, 'agent_in': rng.choice([True, 'badtarget']) if rng.random() < 0.14 else False, 'exec': ex, 'on_error': rng.random() < 0.35,
          'agent_out': rng.random() < 0.15, 'tmgr_out': rng.random() < 0.15,
          'has_in': rng.random() < 0.5, 'has_out': rng.random() < 0.6, 'pilot': rng.choice([0, 0, 1, 2])}
     return p
@@ -43,7 +45,9 @@ def build(tree, k, p):
     ins, outs, produce = [], [], {}
     if p['has_in'] or p['tmgr_in']:
         ins.append('in.dat' if not p['tmgr_in'] else 'missing_%d.dat' % k)
-    if p['agent_in']:
+    if p['agent_in'] == 'badtarget':
+        ins.append({'source': 'pilot:///shared.dat', 'target': 'sftp://elsewhere.example/tmp/shared_%d.dat' % k, 'action': 'Copy'})
+    elif p['agent_in']:
         ins.append({'source': 'pilot:///nothing_%d.dat' % k, 'action': 'Copy'})
     elif p['has_in']:
         ins.append({'source': 'pilot:///shared.dat', 'target': 'task:///shared_copy.dat', 'action': 'Copy'})
@@ -60,7 +64,7 @@ def build(tree, k, p):
 
 def model_op(p):
     ex = p['exec']
-    return {'op': 'run', 'tmgr_in': p['tmgr_in'], 'agent_in': p['agent_in'],
+    return {'op': 'run', 'tmgr_in': p['tmgr_in'], 'agent_in': bool(p['agent_in']),
             'exec': ('canceled' if ex in ('canceled', 'timeout') else ex), 'on_error': p['on_error'],
             'agent_out': p['agent_out'], 'tmgr_out': p['tmgr_out'], 'has_tmgr_out': bool(p['has_out'] or p['tmgr_out'])}
 
@@ -373,6 +377,7 @@ CORPUS = [
     [_p(tmgr_out=True)],                               # FAILED had no exception recorded
     [_p(exec=3, on_error=True), _p(exec='canceled', on_error=True), _p(exec='timeout')],
     [_p(tmgr_in=True), _p(), _p(agent_in=True), _p(exec='no_launcher'), _p(exec='launch_error'), _p(agent_out=True)],
+    [_p(), _p(agent_in='badtarget'), _p(has_in=False, has_out=False), _p()],
     [_p(tmgr_in=True, pilot=0), _p(pilot=0), _p(pilot=1), _p(tmgr_in=True, pilot=1), _p(pilot=2)],     # one bulk, several pilots
 ]
 
